@@ -631,6 +631,23 @@ pub fn gen(out: &mut Out, thorough: bool, seed: u64) {
         format!("all 65536 two-byte headers; claimed payload lengths capped at {} bytes (see rule)", CLAIM_CAP),
     );
 
+    // --- 64-bit length fields whose HIGH bits are set while the low bits are small: with exactly "low bits" bytes following, a
+    // decoder that drops or masks any high bit would take the frame for complete (the claim stays far above what is supplied,
+    // so no large allocation is at stake since the repair of the up-front allocation)
+    for high in [1u64 << 63, 1 << 62, 1 << 48, 1 << 32, (1 << 63) | (1 << 31), u64::MAX << 16] {
+        for low in [0u64, 1, 5, 125, 126, 1000] {
+            for mask in [0x00u8, 0x80] {
+                let v = high | low;
+                let mut f = vec![0x82u8, mask | 127];
+                f.extend_from_slice(&v.to_be_bytes());
+                if mask != 0 { f.extend_from_slice(&[9, 8, 7, 6]); }
+                f.extend_from_slice(&rng.bytes(low as usize));
+                run_dec(out, &[f.clone()], "high-length-bits");
+                let s = random_sizes(&mut rng, f.len(), 3);
+                run_dec(out, &split(&s, &f), "high-length-bits");
+            }
+        }
+    }
     // --- reads that return 0 in the middle (empty chunk) and empty scripts
     run_dec(out, &[], "eof");
     run_dec(out, &[vec![]], "eof");
